@@ -36,6 +36,8 @@ def one(mid, a):
             print(mid, "patch does not apply:", r.stdout[-300:], flush=True)
             return
         env = dict(os.environ, VERIF_REPO=wt)
+        if a.fast:
+            env["VERIF_SKIP_S4"] = "1"
         out = sh("python3 %s/bin/check.py --survey --tier quick" % VERIF, cwd=VERIF, timeout=3600, env=env).stdout
     finally:
         if a.in_repo:
@@ -50,6 +52,7 @@ def one(mid, a):
     if not res:
         res = {"errors": ["no survey output: " + out[-500:]]}
     res["wall_s"] = round(time.time() - t0)
+    res["sources"] = "S1 S2 S3" if a.fast else "S1 S2 S3 S4"
     outd = os.path.join(a.out or os.path.join(VERIF, a.dir), mid)
     os.makedirs(outd, exist_ok=True)
     if a.dir == "seeded":
@@ -71,9 +74,16 @@ def main():
     ap.add_argument("--out")
     ap.add_argument("--dir", default="seeded", help="seeded | benign")
     ap.add_argument("--in-repo", action="store_true")
+    ap.add_argument("--fast", action="store_true", help="without the exhaustive searches of the implementation (S4)")
+    ap.add_argument("--missed", action="store_true", help="only the changes whose result.json says not detected / is absent")
     ap.add_argument("ids", nargs="*")
     a = ap.parse_args()
     ids = a.ids or sorted(os.listdir(os.path.join(VERIF, a.dir)))
+    if a.missed:
+        def missed(m):
+            p = os.path.join(a.out or os.path.join(VERIF, a.dir), m, "result.json")
+            return not (os.path.exists(p) and json.load(open(p)).get("detected"))
+        ids = [m for m in ids if missed(m)]
     if a.in_repo:
         if sh("git -C /repo status --porcelain").stdout.strip():
             print("/repo is not clean")
